@@ -110,6 +110,16 @@ def pipeline(ctx, nwork, depth, torn, nest_every):
     return allp, res, nprobes, points
 
 
+def design_mc(ctx):
+    """Design level: the WalRecovery mechanism spec (repaired code, all defect switches TRUE) is model-checked for
+    Recovered (refinement of CrashModel's Acceptable at every completed recovery, incl. crashes inside recovery and a
+    torn final log write), NoPanic and PageBehindLog."""
+    vlib.model_check(ctx, "WalRecovery", "WalRecovery", "MC_quick.cfg", workers=8, timeout=1800)
+    if ctx.tier == "thorough":
+        vlib.model_check(ctx, "WalRecovery", "WalRecovery", "MC_quick2.cfg", workers=16, timeout=3000)
+        vlib.model_check(ctx, "WalRecovery", "WalRecovery", "MC_1txn_2crash.cfg", workers=16, timeout=3000)
+
+
 def stats(trace):
     c = count_events(trace)
     outcomes = collections.Counter()
